@@ -42,6 +42,10 @@ def run(ctx):
     ok_x = vlib.step_extract(ctx)
     ok_p = vlib.step_prove(ctx) if ok_x else False
     ts = audit_texts.all_texts(ctx.seed, ctx.tier)
+    rp = vlib.replay_case(ctx)
+    if rp is not None and "source_text" in rp:
+        ts = [(rp.get("name", "replay"), rp["source_text"])]
+        ctx.note("replay: the source text of " + ctx.replay)
     res = run_audit([t for _, t in ts])
     hist = collections.Counter()
     for (name, text), r in zip(ts, res):
@@ -58,6 +62,6 @@ def run(ctx):
                    rule="source texts: every Python statement / expression form placed in nada_main, at module level and in a helper function; "
                         "layout variants; edge texts (empty, whitespace, CRLF, only syntax errors); random line mutations of a strict-subset "
                         "program; each audited by the real strict()+html() under an alarm and an interpreter audit hook",
-                   samples=[dict(name=ts[i][0], text=ts[i][1][:200], outcome=res[i]["outcome"]) for i in (0, 20, 200)],
+                   samples=[dict(name=ts[i][0], text=ts[i][1][:200], outcome=res[i]["outcome"]) for i in (0, 20, 200) if i < len(ts)],
                    traces_validated_against_impl=len(ts), outcome_histogram={str(k): v for k, v in hist.items()})
     return vlib.finish(ctx)
